@@ -170,11 +170,11 @@ def _workload(case: dict, paths: dict, max_workers, out: dict) -> None:
     del cross, auto, hist
     rk_ = dict(rk)
     with IdentitySeam(case.get("identity", "fifo"), seed=case["scene"]["data_seed"]) as ident:
-        _repeat_and_churn(case, config, cats, rk_, kw, out)
+        _repeat_and_churn(case, config, cats, rk_, kw, out, ident)
     out["identity.recycled"] = ident.recycled
 
 
-def _repeat_and_churn(case: dict, config, cats: dict, rk_: dict, kw: dict, out: dict) -> None:
+def _repeat_and_churn(case: dict, config, cats: dict, rk_: dict, kw: dict, out: dict, ident) -> None:
     import yaw
 
     first: dict = {}
@@ -186,6 +186,7 @@ def _repeat_and_churn(case: dict, config, cats: dict, rk_: dict, kw: dict, out: 
                 cfs = yaw.autocorrelate(config, cats["ref"], cats["rref"], count_rr=case["count_rr"], **kw)
             st = [orc.sampled_state(cf.sample()) for cf in cfs]
             del cfs
+            ident.collect()
             if label not in first:
                 first[label] = st
             elif orc.states_equal(first[label], st) is not None:
@@ -211,6 +212,7 @@ def _repeat_and_churn(case: dict, config, cats: dict, rk_: dict, kw: dict, out: 
             twin = copy.deepcopy(cf) if (cycle + j) % 2 else pickle.loads(pickle.dumps(cf))
             st = orc.sampled_state(twin.sample())
             del twin
+            ident.collect()
             msg = orc.states_equal(ref_states[name], st)
             if msg is not None:
                 out.setdefault("repeat_mismatch", []).append(f"copy of {name}, cycle {cycle}: {msg}")
